@@ -1,9 +1,9 @@
 package main
 
 import (
-	"go/token"
 	"fmt"
 	"go/ast"
+	"go/token"
 	"go/types"
 	"sort"
 	"strings"
@@ -819,14 +819,14 @@ func ruleGoroutineRoots(p *Prog, r *Out) {
 		recover string // function that must contain recover(), "" if none required
 	}
 	reviewed := map[string]rv{
-		"(*serverConn).Serve$2":                  {"server write loop goroutine", ""},
-		"(*serverConn).Serve$3":                  {"server stream loop goroutine", "(*serverConn).handleStreams"},
-		"(*serverConn).dispatchHandler$1":        {"handler goroutine", "(*serverConn).dispatchHandler$1$1"},
-		"(*serverConn).closeIdleConn":      {"idle timer", ""},
+		"(*serverConn).Serve$2":             {"server write loop goroutine", ""},
+		"(*serverConn).Serve$3":             {"server stream loop goroutine", "(*serverConn).handleStreams"},
+		"(*serverConn).dispatchHandler$1":   {"handler goroutine", "(*serverConn).dispatchHandler$1$1"},
+		"(*serverConn).closeIdleConn":       {"idle timer", ""},
 		"(*serverConn).sendPingAndSchedule": {"ping timer", ""},
-		"(*Conn).writeLoop":                      {"client write loop", "(*Conn).runWriteLoop$1"},
-		"(*Conn).readLoop":                       {"client read loop", "(*Conn).readLoop$2"},
-		"(*Ctx).fireTimeout":               {"request timeout timer", ""},
+		"(*Conn).writeLoop":                 {"client write loop", "(*Conn).runWriteLoop$1"},
+		"(*Conn).readLoop":                  {"client read loop", "(*Conn).readLoop$2"},
+		"(*Ctx).fireTimeout":                {"request timeout timer", ""},
 	}
 	var names []string
 	for n := range roots {
